@@ -38,12 +38,12 @@ func init() {
 }
 
 type lruRoles struct {
-	ecache                                  *types.Named
-	mutex, items, inflight, create, onDel   *types.Var
-	capacity                                *types.Var
-	mGet, mRemove, mAdd, mLen, mFirst, mIt  *ssa.Function
-	getOrCreate, remove, clear              *ssa.Function
-	methods                                 []*ssa.Function
+	ecache                                 *types.Named
+	mutex, items, inflight, create, onDel  *types.Var
+	capacity                               *types.Var
+	mGet, mRemove, mAdd, mLen, mFirst, mIt *ssa.Function
+	getOrCreate, remove, clear             *ssa.Function
+	methods                                []*ssa.Function
 }
 
 func resolveLRURoles(c *Ctx) *lruRoles {
